@@ -46,6 +46,8 @@ def trace_files():
         src("_transformations/caching.py"): 3,
         src("_util/retry.py"): 1,
         src("_run.py"): 1,
+        src("_plan.py"): 1,
+        src("_registry.py"): 1,
         src("progress/_simple_progress_observer.py"): 3,
         src("progress/_composite_progress_observer.py"): 1,
     }
